@@ -111,6 +111,9 @@ def _to_obj(x):
 
 
 def _elementwise(fn, x):
+    if isinstance(x, (str, bytes)) or x is None:
+        # what the numpy ufunc does with such an operand
+        raise TypeError(f"ufunc not supported for the input type {type(x).__name__}")
     x = _to_obj(x)
     if isinstance(x, (Sym, CSym)):
         return fn(x)
